@@ -305,6 +305,36 @@ func scenJailAndEvidence(start int64) *scenario {
 	return s
 }
 
+// A genesis validator that is not among the asset holders (the genesis written by the repository's own init command
+// has such validators; InitChain gives them an empty account), stays offline from the start, never proposes, receives
+// nothing and is therefore jailed while its account is still empty: its released genesis stake must come back to it
+// when the unbonding period is over. Needs
+// GenOpts.UnfundedLast (the last genesis validator holds nothing and is unknown to the random generator).
+func scenOfflineUnfunded() *scenario {
+	s := &scenario{name: "offline-unfunded-validator", start: 1}
+	s.step = func(sc *scenCtx, rel int64) {
+		g := sc.hr.G.G
+		if len(g.Validators) < 2 {
+			return
+		}
+		x := g.Validators[len(g.Validators)-1].Key
+		for i := range sc.b.Votes {
+			if hx(sc.b.Votes[i].Addr) == x.A() {
+				sc.b.Votes[i].Signed = false
+			}
+		}
+		if hx(sc.b.Proposer) == x.A() {
+			sc.b.Proposer = g.Validators[0].Key.Addr
+		}
+		for _, f := range sc.pre.Frozen {
+			if f.Owner == x.A() && f.Refund == sc.h {
+				sc.hr.C.Count("scenario.refund-due-to-offline-validator", 1)
+			}
+		}
+	}
+	return s
+}
+
 var _ = uint256.NewInt
 
 // limiter rejection followed by further stake changes of the same delegatee inside one block:
